@@ -385,6 +385,9 @@ class EvalMixin(CallMixin):
                     fi = repo.find_method(cq, attr)
                     if fi is not None:
                         if "property" in fi.decorators:
+                            if self.should_inline(fi, fr):
+                                # a property introduced later (or a private helper property): evaluated like any other inlined helper
+                                return self.call_function(fi, [base], {}, node, fr), None
                             return Attr(base, attr), r
                         if "staticmethod" in fi.decorators:
                             return FuncRef(fi), None
